@@ -220,11 +220,11 @@ class Multiprocessor(Filter[Iterable[Any], Iterable[Any]]):
             filter_line = SourceSink(in_get, setter, unpickler, get_max, Safe(Foreach(self._filter)), pickler, out_put)
 
             def loader_finished_or_failed(worker: Union[ThreadLine,ProcessLine]):
-                if worker.exception: self._exceptions.append(worker.exception)
+                if worker.exception is not None: self._exceptions.append(worker.exception)
                 in_put.write(self._load_stopper.filter([self._poison]*self._n_procs))
 
             def filter_finished_or_failed(worker: Union[ThreadLine,ProcessLine]):
-                if worker.exception: self._exceptions.append(worker.exception)
+                if worker.exception is not None: self._exceptions.append(worker.exception)
 
                 assert not worker.is_alive()
 
